@@ -67,7 +67,7 @@ def gen(rng, tier, index):
     backends = ('t',) if rng.random() < 0.6 else tuple(pargen.BACKENDS_POOL)
     user_src = (not strict) and rng.random() < 0.06
     desc, a = pargen.gen_desc(
-        rng, max_n=8, simple=strict, source_kind='user' if user_src else None,
+        rng, max_n=8, simple=strict, user_stage_p=1.0 if user_src else 0.0,
         par_kw=dict(backends=backends, max_extra_b=2,
                     catch_p=0.0 if strict else 0.15))
     n = desc['source']['n']
